@@ -651,16 +651,12 @@ Section NumericProofs.
       apply vsub_self.
   Qed.
 
-  (* kfilt body on a block of equal rows, no taper: zeros, whatever the gain control *)
+  (* kfilt / fk body on a block of equal rows, no taper: zeros, whatever the gain control;
+     and the body preserves the number of channels for every ntr_pad >= 0 *)
   Section Kfilt.
-    Variable H : Z -> list (list R) -> list (list R).
     Variable taper : nat -> nat -> list R.
-    Variable window : Z -> list R.
     Variable eps : R.
-    (* the zero-phase high-pass along channels returns zeros on a block of equal rows *)
-    Hypothesis H_kills_common : forall b m r, all_rows m r -> all_zero (H b m).
-    Set Default Proof Using "Rth two_neq char0 rleb_translate reqb_ok H_kills_common".
-    Local Notation kfilt_base := (kfilt_base R rO rI radd rmul rdiv reqb rabs H taper window eps).
+    Local Notation spatial_body := (spatial_body R rO rI radd rmul rdiv reqb rabs).
 
     Lemma vmul_zero_l z g : Forall (fun v => v = rO) z -> Forall (fun v => v = rO) (vmul z g).
     Proof.
@@ -669,17 +665,18 @@ Section NumericProofs.
       now apply IH.
     Qed.
 
-    Lemma pad_filter_unpad_zero b pad (xf : list (list R)) r1 : all_rows xf r1 ->
+    Lemma pad_filter_unpad_zero (Hf : list (list R) -> list (list R)) pad (xf : list (list R)) r1 :
+      (forall m r, all_rows m r -> all_zero (Hf m)) -> all_rows xf r1 ->
       all_zero (if (0 <? pad)%nat
-                then firstn (length (H b (if (0 <? pad)%nat
-                                          then rev (firstn pad xf) ++ xf ++ rev (lastn pad xf) else xf))
+                then firstn (length (Hf (if (0 <? pad)%nat
+                                         then rev (firstn pad xf) ++ xf ++ rev (lastn pad xf) else xf))
                              - 2 * pad)
-                            (skipn pad (H b (if (0 <? pad)%nat
-                                             then rev (firstn pad xf) ++ xf ++ rev (lastn pad xf) else xf)))
-                else H b (if (0 <? pad)%nat
-                          then rev (firstn pad xf) ++ xf ++ rev (lastn pad xf) else xf)).
+                            (skipn pad (Hf (if (0 <? pad)%nat
+                                            then rev (firstn pad xf) ++ xf ++ rev (lastn pad xf) else xf)))
+                else Hf (if (0 <? pad)%nat
+                         then rev (firstn pad xf) ++ xf ++ rev (lastn pad xf) else xf)).
     Proof.
-      intros Hr1.
+      intros HK Hr1.
       assert (H1 : all_rows (if (0 <? pad)%nat
                              then rev (firstn pad xf) ++ xf ++ rev (lastn pad xf) else xf) r1).
       { destruct (0 <? pad)%nat; [|exact Hr1]. intros r' Hin.
@@ -687,27 +684,91 @@ Section NumericProofs.
         - apply in_rev in Hin. apply Hr1. eapply firstn_In_sub. exact Hin.
         - apply in_app_or in Hin. destruct Hin as [Hin|Hin]; [now apply Hr1|].
           apply in_rev in Hin. apply Hr1. unfold lastn in Hin. eapply skipn_In_sub. exact Hin. }
-      pose proof (H_kills_common b _ r1 H1) as HZ.
+      pose proof (HK _ r1 H1) as HZ.
       destruct (0 <? pad)%nat; [|exact HZ]. intros r' Hin. apply HZ.
       eapply skipn_In_sub. eapply firstn_In_sub. exact Hin.
     Qed.
 
+    Lemma spatial_body_kills_common Hf agcw ntr_pad ntr_tap x r :
+      (forall m r, all_rows m r -> all_zero (Hf m)) ->
+      (ntr_tap = 0%Z \/ (ntr_tap = (-1)%Z /\ (ntr_pad <= 0)%Z)) ->
+      all_rows x r -> all_zero (spatial_body Hf taper agcw eps ntr_pad ntr_tap x).
+    Proof.
+      intros HK Htap Hall. unfold Model.spatial_body. cbv zeta.
+      assert (Htap0 : (if (ntr_tap =? -1)%Z then Nat.min (Z.to_nat ntr_pad) (length x)
+                       else Z.to_nat ntr_tap) = O).
+      { destruct Htap as [->|[-> Hp]]; cbn; [reflexivity|].
+        replace (Z.to_nat ntr_pad) with O by lia. reflexivity. }
+      rewrite Htap0. change (0 <? 0)%nat with false. cbv iota.
+      destruct agcw as [w|]; cbn [fst snd].
+      - intros r' Hin. apply in_map_iff in Hin. destruct Hin as [[z gr] [<- Hp]]. cbn [fst snd].
+        apply vmul_zero_l. apply in_combine_l in Hp. revert z Hp.
+        apply pad_filter_unpad_zero with (r1 := fst (agc_row w eps r)); [exact HK|].
+        unfold Model.agc. cbn [fst].
+        intros r'' Hin. apply in_map_iff in Hin. destruct Hin as [r0 [<- H0]]. now rewrite (Hall r0 H0).
+      - now apply pad_filter_unpad_zero with r.
+    Qed.
+
+    (* shape: the body returns as many channels as it was given, for every ntr_pad >= 0 *)
+    Lemma spatial_body_length Hf agcw ntr_pad ntr_tap x :
+      (forall m, length (Hf m) = length m) ->
+      (forall nxp tap, length (taper nxp tap) = nxp) ->
+      length (spatial_body Hf taper agcw eps ntr_pad ntr_tap x) = length x.
+    Proof.
+      intros HL HT. unfold Model.spatial_body. cbv zeta.
+      set (nx := length x). set (pad := Nat.min (Z.to_nat ntr_pad) nx).
+      assert (Hpad : (pad <= nx)%nat) by (unfold pad; lia).
+      set (xg := match agcw with
+                 | Some w => (fst (agc w eps x), Some (snd (agc w eps x)))
+                 | None => (x, None)
+                 end).
+      assert (Hx0 : length (fst xg) = nx).
+      { unfold xg. destruct agcw; cbn [fst]; [|reflexivity]. unfold Model.agc. cbn [fst]. now rewrite map_length. }
+      assert (Hg : match snd xg with Some g => length g = nx | None => True end).
+      { unfold xg. destruct agcw; cbn [snd]; [|exact I]. unfold Model.agc. cbn [snd]. now rewrite map_length. }
+      set (xf1 := if (0 <? pad)%nat then rev (firstn pad (fst xg)) ++ fst xg ++ rev (lastn pad (fst xg)) else fst xg).
+      assert (H1 : length xf1 = (nx + 2 * pad)%nat).
+      { unfold xf1. destruct (Nat.ltb_spec 0 pad) as [Hp|Hp]; [|lia].
+        rewrite !app_length, !rev_length, firstn_length. unfold lastn. rewrite skipn_length. lia. }
+      set (tap := if (ntr_tap =? -1)%Z then pad else Z.to_nat ntr_tap).
+      set (xf2 := if (0 <? tap)%nat
+                  then map (fun p => map (rmul (fst p)) (snd p)) (combine (taper (nx + 2 * pad) tap) xf1) else xf1).
+      assert (H2 : length xf2 = (nx + 2 * pad)%nat).
+      { unfold xf2. destruct (0 <? tap)%nat; [|exact H1]. rewrite map_length, combine_length, HT. lia. }
+      set (xf3 := Hf xf2).
+      assert (H3 : length xf3 = (nx + 2 * pad)%nat) by (unfold xf3; now rewrite HL).
+      set (xf4 := if (0 <? pad)%nat then firstn (length xf3 - 2 * pad) (skipn pad xf3) else xf3).
+      assert (H4 : length xf4 = nx).
+      { unfold xf4. destruct (Nat.ltb_spec 0 pad) as [Hp|Hp]; [|lia].
+        rewrite firstn_length, skipn_length. lia. }
+      change (length (match snd xg with
+                      | Some g => map (fun p => vmul (fst p) (snd p)) (combine xf4 g)
+                      | None => xf4 end) = nx).
+      destruct (snd xg) as [g|]; [|exact H4]. rewrite map_length, combine_length. lia.
+    Qed.
+
+    Variable H : Z -> list (list R) -> list (list R).
+    Variable window : Z -> list R.
+    Local Notation kfilt_base := (kfilt_base R rO rI radd rmul rdiv reqb rabs H taper window eps).
+
     Lemma kfilt_base_kills_common p x r :
+      (forall b m r, all_rows m r -> all_zero (H b m)) ->
       (k_ntr_tap p = 0%Z \/ (k_ntr_tap p = (-1)%Z /\ (k_ntr_pad p <= 0)%Z)) ->
       all_rows x r -> all_zero (kfilt_base p x).
     Proof.
-      intros Htap Hall. unfold Model.kfilt_base. cbv zeta.
-      assert (Htap0 : (if (k_ntr_tap p =? -1)%Z then Z.to_nat (k_ntr_pad p) else Z.to_nat (k_ntr_tap p)) = O).
-      { destruct Htap as [->|[-> Hp]]; cbn; [reflexivity|]. lia. }
-      rewrite Htap0. change (0 <? 0)%nat with false. cbv iota.
-      destruct (k_lagc p <=? 0)%Z; cbn [fst snd].
-      - now apply pad_filter_unpad_zero with r.
-      - intros r' Hin. apply in_map_iff in Hin. destruct Hin as [[z gr] [<- Hp]]. cbn [fst snd].
-        apply vmul_zero_l. apply in_combine_l in Hp. revert z Hp.
-        apply pad_filter_unpad_zero with (r1 := fst (agc_row (window (k_lagc p)) eps r)).
-        unfold Model.agc. cbn [fst].
-        intros r'' Hin. apply in_map_iff in Hin. destruct Hin as [r0 [<- H0]]. now rewrite (Hall r0 H0).
+      intros HK Htap Hall. unfold Model.kfilt_base.
+      apply spatial_body_kills_common with r; auto. intros m r0. apply HK.
     Qed.
+
+    Lemma kfilt_base_length p x :
+      (forall b m, length (H b m) = length m) -> (forall nxp tap, length (taper nxp tap) = nxp) ->
+      length (kfilt_base p x) = length x.
+    Proof. intros HL HT. unfold Model.kfilt_base. apply spatial_body_length; auto. Qed.
+
+    Lemma fk_base_length (F : fk_params -> list (list R) -> list (list R)) p x :
+      (forall q m, length (F q m) = length m) -> (forall nxp tap, length (taper nxp tap) = nxp) ->
+      length (fk_base R rO rI radd rmul rdiv reqb rabs F taper window eps p x) = length x.
+    Proof. intros HL HT. unfold Model.fk_base. apply spatial_body_length; auto. Qed.
   End Kfilt.
   Set Default Proof Using "Rth two_neq char0 rleb_translate reqb_ok".
 
